@@ -15,4 +15,18 @@ UNITS = [
          remove_bodies=[f.name for f in _t.by_file[csrc.REPO + "/src/state/bidib_state.c"] if f.name != "bidib_state_query_nodetab"],
          extra_flags=["--nondet-static", "--unwind", "9"], covers=2, min_obligations=6, timeout=600,
          stubbed_contracts=["bidib_read_intern_message (scripted arbitrary answers)", "bidib_state_get_board_ref_by_uniqueid", "bidib_send_nodetab_getall/getnext", "bidib_flush"]),
+] + [
+    Unit(name="C15.lookup_" + n, src="units/C15/lookups.c", defines=[d], functions=fns, props=pr, no_dfcc=True, kind="bounded",
+         bound="table of at most 3 boards / trains (2 points + 2 signals on a board), arbitrary content; loops unwound completely",
+         remove_bodies=[f.name for f in _t.by_file[csrc.REPO + "/src/state/bidib_state_getter.c"] if f.name not in fns],
+         extra_flags=["--nondet-static", "--unwind", "5"], covers=2, min_obligations=4, timeout=300,
+         note="closes the assumed lookup contracts of the setter / command units: the element returned is the one the key designates")
+    for n, d, fns, pr in [
+        ("by_nodeaddr", "VP_H_BY_NODEADDR", ["bidib_state_get_board_ref_by_nodeaddr"], ["C15", "C07"]),
+        ("by_uniqueid", "VP_H_BY_UID", ["bidib_state_get_board_ref_by_uniqueid"], ["C15"]),
+        ("by_id", "VP_H_BY_ID", ["bidib_state_get_board_ref"], ["C15", "C09"]),
+        ("accessory_by_number", "VP_H_ACC_BY_NUMBER", ["bidib_state_get_board_accessory_mapping_ref_by_number", "bidib_state_get_board_ref_by_nodeaddr"], ["C07"]),
+        ("segment_by_nodeaddr", "VP_H_SEG_BY_NODEADDR", ["bidib_state_get_segment_state_ref_by_nodeaddr", "bidib_state_get_board_ref_by_nodeaddr", "bidib_state_get_segment_state_ref"], ["C07", "C08", "C16"]),
+        ("train_state_by_dccaddr", "VP_H_TRAIN_BY_DCC", ["bidib_state_get_train_state_ref_by_dccaddr", "bidib_state_get_train_state_ref"], ["C07", "C08"]),
+    ]
 ]
